@@ -697,3 +697,42 @@ Theorem C15_bytes_consumed_index :
     (Z.of_N (consumed_index limit size) <= eff_limit limit)%Z /\ consumed_index limit size <= size.
 Proof. exact consumed_index_spec. Qed.
 Print Assumptions C15_bytes_consumed_index.
+
+(* the refinement with an invariant of the request paths (weaker hypotheses: only requests whose
+   path satisfies InvP need to be answered alike / resolved alike) *)
+Theorem C15_string_loop_refines_inv :
+  forall (sch host : str) (serve_s : nat -> sreq -> response) (serve : nat -> url -> response)
+         (resolve : url -> str -> option url) (cb_fail : nat -> bool) (c : cfg) (InvP : str -> Prop),
+    (forall i rs rq, InvP (sr_path rs) -> same_request rs rq -> serve_s i rs = serve i rq) ->
+    (forall i rs rq t,
+       InvP (sr_path rs) -> same_request rs rq -> parse_link (rs_link (serve i rq)) = LTarget t ->
+       match resolve_ref (mkS sch host (sr_path rs) (sr_query rs)) t, resolve rq t with
+       | ROk u, Some u' => s_path u <> [] /\ s_path u = u_path u' /\ repr (s_query u) (u_query u') /\ InvP (s_path u)
+       | RErr, None => True
+       | _, _ => False
+       end) ->
+    forall fuel i k p raw q last,
+      InvP p -> repr raw q -> Forall byte_ok last ->
+      exists ts, loop_s sch host serve_s cb_fail c fuel i k p raw last = Some ts /\
+                 let t := loop serve resolve cb_fail c fuel i k (mkUrl p q) last in
+                 st_pages ts = t_pages t /\ st_out ts = t_out t /\
+                 Forall2 same_request (st_reqs ts) (t_reqs t).
+Proof. exact loop_s_refines_inv. Qed.
+Print Assumptions C15_string_loop_refines_inv.
+
+(* its hypotheses are satisfiable: a two-page registry with a query-only link *)
+Example C15_example_refinement_hypotheses :
+  (forall i rs rq, exs_inv (sr_path rs) -> same_request rs rq -> exs_serve_s i rs = exs_serve i rq) /\
+  (forall i rs rq t,
+     exs_inv (sr_path rs) -> same_request rs rq -> parse_link (rs_link (exs_serve i rq)) = LTarget t ->
+     match resolve_ref (mkS (b "http") (b "reg.test") (sr_path rs) (sr_query rs)) t, exs_resolve rq t with
+     | ROk u, Some u' => s_path u <> [] /\ s_path u = u_path u' /\ repr (s_query u) (u_query u') /\ exs_inv (s_path u)
+     | RErr, None => True
+     | _, _ => False
+     end).
+Proof. exact example_refinement_hypotheses. Qed.
+
+Example C15_example_string_loop :
+  loop_s (b "http") (b "reg.test") exs_serve_s (fun _ => false) (mkCfg KTags 2 0 []) 5 0 0 exs_path [] []
+  = Some (mkST [mkSR exs_path (b "n=2"); mkSR exs_path (b "last=a&n=2")] [[(b "a", [])]; [(b "b", [])]] Done).
+Proof. vm_compute. reflexivity. Qed.
